@@ -1,9 +1,12 @@
 package checks
 
 import (
+	"errors"
 	"fmt"
 	"io"
 	"io/fs"
+	"os"
+	"regexp"
 	"sort"
 	"strings"
 	"sync/atomic"
@@ -52,9 +55,33 @@ type c24Env struct {
 	opens       atomic.Int32
 	doubleClose atomic.Bool
 	pinned      atomic.Int32 // handles currently held by readers
+	intent      atomic.Int32 // readers between the call of Acquire and the return of the matching Release
+	prePinned   int32        // handles pinned by the set-up for the whole execution
+	injected    atomic.Int32 // open attempts that were made to fail
 	bad         atomic.Value // first violation text
 	pool        *fdpool.Pool
 	cap         int
+}
+
+var errC24Injected = errors.New("injected open failure")
+
+// capCheck: with a real pool the number of open descriptors never exceeds capacity + pinned readers.
+// A reader counts as pinning from the call of Acquire (the descriptor is opened before the pool is
+// told) to the return of Release (an evicted-while-pinned descriptor is closed inside Release).
+func (e *c24Env) capCheck(when string) {
+	if e.cap <= 0 {
+		return
+	}
+	// read the pin count first: open can only be over-estimated relative to it by a concurrent opener,
+	// and every opener has raised intent before opening
+	open := e.open.Load()
+	pins := e.intent.Load() + e.prePinned
+	if pins2 := e.intent.Load() + e.prePinned; pins2 > pins {
+		pins = pins2
+	}
+	if int(open) > e.cap+int(pins) {
+		e.fail("%d pooled descriptors open %s, capacity %d, %d pinned by readers", open, when, e.cap, pins)
+	}
 }
 
 func (e *c24Env) fail(format string, a ...any) {
@@ -76,8 +103,13 @@ func c24Thread(e *c24Env, prog []c24Op) func() any {
 		for _, op := range prog {
 			switch op.kind {
 			case 'A', 'H':
+				e.intent.Add(1)
 				f, err := e.sf[op.i].Acquire()
 				if err != nil {
+					e.intent.Add(-1)
+					if errors.Is(err, errC24Injected) {
+						continue // the opener failed: nothing is handed out, nothing may stay pinned
+					}
 					if !e.closeCalled[op.i].Load() {
 						e.fail("Acquire(sf%d) failed with %v although Close was never called", op.i, err)
 					}
@@ -101,6 +133,7 @@ func c24Thread(e *c24Env, prog []c24Op) func() any {
 					check("before Release")
 					e.pinned.Add(-1)
 					e.sf[i].Release()
+					e.intent.Add(-1)
 				}
 				if op.kind == 'A' {
 					rel()
@@ -113,7 +146,8 @@ func c24Thread(e *c24Env, prog []c24Op) func() any {
 				e.closeCalled[op.i].Store(true)
 				_ = e.sf[op.i].Close()
 			}
-			// capacity invariant at a quiescent instant of this thread (no eviction of its own in flight)
+			// capacity invariant at an operation boundary of this thread
+			e.capCheck("after " + op.String())
 		}
 		for _, r := range held {
 			r()
@@ -122,81 +156,187 @@ func c24Thread(e *c24Env, prog []c24Op) func() any {
 	}
 }
 
+// c24Harness is one program assignment in one environment.
+type c24Harness struct {
+	progs    [][]c24Op
+	cap      int    // -1 = no pool (grace timer); 0 = no-op pool (fdpool.New(0)); >0 = real pool
+	third    string // "", "idle": a third member registered and released by the set-up; "pinned": held by the set-up throughout
+	failOpen bool   // the first open attempt of sf0 fails
+	family   string
+}
+
+func (h c24Harness) ops() int {
+	n := 0
+	for _, p := range h.progs {
+		n += len(p)
+	}
+	return n
+}
+
 func runC24(c *fw.Ctx) {
+	if os.Getenv("VERIF_C24_ONLY") == "store" { // development aid: part B alone
+		c24Store(c)
+		return
+	}
 	maxPre := c.Pick(2, 3)
 	c.Bound("max_preemptions", maxPre)
-	c.SetRule("real sharedfile.SharedFile x2 over a real fdpool.Pool (cap none/1/2, none = grace timer as scheduler event); every assignment of programs (<=2 ops from {Acquire-check-Release, Acquire-hold, ReleaseNow, Close} x 2 files) to 2 threads and of 1-op programs to 3 threads, up to thread symmetry; every interleaving at Mutex.Lock/atomic/timer-fire points within the preemption bound; invariants on every execution: held descriptor never closed unless Close was called, Acquire fails only after Close, no double close, no deadlock, at quiescence (timers drained) idle un-pooled descriptors are closed and open pooled descriptors <= capacity; distinct = distinct (program set, pool, outcome signature)")
-	c.Assume("cooperative scheduler at synchronisation operations (data races on plain memory are out of scope); timers may fire at any point after arming")
+	c.SetRule("part A: real sharedfile.SharedFile over a real fdpool.Pool, environments {no pool = grace timer as scheduler event; fdpool.New(0) = documented 'pooling disabled'; pool cap 1 over two files; pool cap 2 over two files plus a third member that the set-up registered (idle) or holds (pinned); first open attempt failing, with and without pool}; programs of <=2 ops from {Acquire-check-Release, Acquire-hold, ReleaseNow, Close} per file assigned to 2 threads, 1-op programs to 3 threads (thorough also 3-op programs and 3 threads x 2 ops on one file), up to thread and file symmetry; without a real pool the files are independent objects, so only one file is driven there; harnesses run smallest first, round-robin over the environments, so that a deadline cuts the largest programs of every environment rather than whole environments; every interleaving at Mutex.Lock/atomic/timer-fire points within the preemption bound; invariants on every execution: held descriptor never closed unless Close was called, Acquire fails only after Close or when the opener failed, no double close, no deadlock, open descriptors <= capacity + readers between Acquire and Release at every operation boundary, at quiescence (timers drained) idle un-pooled descriptors are closed and open pooled descriptors <= capacity; part B (c24_store.go): the same accounting on a real filesystem.Storage; distinct = distinct (program set, environment, outcome signature)")
+	c.Assume("cooperative scheduler at synchronisation operations (data races on plain memory are out of scope); timers may fire at any point after arming; SharedFiles without a common real pool share no state (one file is driven there)")
 
-	var alphabet []c24Op
-	for _, k := range []byte{'A', 'H', 'N', 'C'} {
-		for i := 0; i < 2; i++ {
-			alphabet = append(alphabet, c24Op{k, i})
+	alpha := func(files int) []c24Op {
+		var a []c24Op
+		for _, k := range []byte{'A', 'H', 'N', 'C'} {
+			for i := 0; i < files; i++ {
+				a = append(a, c24Op{k, i})
+			}
 		}
+		return a
 	}
-	var progs1, progs2 [][]c24Op
-	for _, a := range alphabet {
-		progs1 = append(progs1, []c24Op{a})
-		progs2 = append(progs2, []c24Op{a})
-	}
-	for _, a := range alphabet {
-		for _, b := range alphabet {
-			progs2 = append(progs2, []c24Op{a, b})
+	progsUpTo := func(a []c24Op, n int) [][]c24Op {
+		out := [][]c24Op{}
+		level := [][]c24Op{{}}
+		for d := 0; d < n; d++ {
+			var next [][]c24Op
+			for _, p := range level {
+				for _, o := range a {
+					next = append(next, append(append([]c24Op{}, p...), o))
+				}
+			}
+			out = append(out, next...)
+			level = next
 		}
+		return out
 	}
-	type harness struct {
-		progs [][]c24Op
-		cap   int // -1 = no pool
-	}
-	var hs []harness
-	caps := []int{-1, 1}
-	if c.Thorough() {
-		caps = []int{-1, 1, 2}
-	}
-	c.Bound("pool_capacities(-1=no pool, grace timer)", caps)
-	canonical := func(progs [][]c24Op) bool { // file symmetry: the first file mentioned is sf0
+	canonical := func(progs [][]c24Op, files int) bool {
+		// file symmetry: the first file mentioned is sf0; every mentioned file is acquired by somebody
+		// (a file that is only closed or soft-closed never opens a descriptor: the harness equals a smaller one)
+		first := true
+		acq := make([]bool, files)
+		used := make([]bool, files)
 		for _, p := range progs {
 			for _, o := range p {
-				return o.i == 0
+				if first && o.i != 0 {
+					return false
+				}
+				first = false
+				used[o.i] = true
+				if o.kind == 'A' || o.kind == 'H' {
+					acq[o.i] = true
+				}
+			}
+		}
+		for i := range used {
+			if used[i] && !acq[i] {
+				return false
 			}
 		}
 		return true
 	}
-	for _, capv := range caps {
-		for i := 0; i < len(progs2); i++ {
-			for j := i; j < len(progs2); j++ {
-				hs = append(hs, harness{[][]c24Op{progs2[i], progs2[j]}, capv})
-			}
+	// multisets of k programs (thread symmetry)
+	var multisets func(ps [][]c24Op, k, from int, cur [][]c24Op, emit func([][]c24Op))
+	multisets = func(ps [][]c24Op, k, from int, cur [][]c24Op, emit func([][]c24Op)) {
+		if k == 0 {
+			emit(append([][]c24Op{}, cur...))
+			return
 		}
-		for i := 0; i < len(progs1); i++ {
-			for j := i; j < len(progs1); j++ {
-				for k := j; k < len(progs1); k++ {
-					hs = append(hs, harness{[][]c24Op{progs1[i], progs1[j], progs1[k]}, capv})
-				}
-			}
+		for i := from; i < len(ps); i++ {
+			multisets(ps, k-1, i, append(cur, ps[i]), emit)
 		}
 	}
-	// non-trivial harnesses only: at least one Acquire and at least one of (second acquirer, ReleaseNow, Close)
-	var sel []harness
-	for _, h := range hs {
-		acq, other := 0, 0
-		for _, p := range h.progs {
-			for _, o := range p {
-				if o.kind == 'A' || o.kind == 'H' {
-					acq++
-				} else {
-					other++
+	type env struct {
+		name     string
+		cap      int
+		files    int
+		third    string
+		failOpen bool
+	}
+	envs := []env{
+		{"no pool", -1, 1, "", false},
+		{"no-op pool (cap 0)", 0, 1, "", false},
+		{"no pool, first open fails", -1, 1, "", true},
+		{"pool cap 1", 1, 2, "", false},
+		{"pool cap 1, first open fails", 1, 2, "", true},
+		{"pool cap 2 + idle third member", 2, 2, "idle", false},
+		{"pool cap 2 + pinned third member", 2, 2, "pinned", false},
+	}
+	var envNames []string
+	for _, e := range envs {
+		envNames = append(envNames, e.name)
+	}
+	c.Bound("environments", envNames)
+	perEnv := make([][]c24Harness, len(envs))
+	for ei, e := range envs {
+		a := alpha(e.files)
+		add := func(progs [][]c24Op) {
+			acq, other := 0, 0
+			for _, p := range progs {
+				for _, o := range p {
+					if o.kind == 'A' || o.kind == 'H' {
+						acq++
+					} else {
+						other++
+					}
 				}
 			}
+			min := 2
+			if e.failOpen || e.third != "" {
+				min = 1 // the environment itself is the second actor
+			}
+			if acq >= 1 && acq+other >= min && canonical(progs, e.files) {
+				perEnv[ei] = append(perEnv[ei], c24Harness{progs: progs, cap: e.cap, third: e.third, failOpen: e.failOpen, family: e.name})
+			}
 		}
-		if acq >= 1 && acq+other >= 2 && canonical(h.progs) {
-			sel = append(sel, h)
+		small := e.failOpen || e.third != "" // derived environments: programs of at most 3 ops in total (quick), 4 (thorough)
+		maxOps := 4
+		if small && !c.Thorough() {
+			maxOps = 3
+		}
+		if e.failOpen || e.third != "" {
+			multisets(progsUpTo(a, 2), 1, 0, nil, add)
+		}
+		multisets(progsUpTo(a, 2), 2, 0, nil, func(p [][]c24Op) {
+			if len(p[0])+len(p[1]) <= maxOps {
+				add(p)
+			}
+		})
+		multisets(progsUpTo(a, 1), 3, 0, nil, add)
+		if c.Thorough() && e.files == 1 {
+			p3 := progsUpTo(a, 3)
+			multisets(p3, 2, 0, nil, func(p [][]c24Op) {
+				if len(p[0]) == 3 || len(p[1]) == 3 {
+					add(p)
+				}
+			})
+			multisets(progsUpTo(a, 2), 3, 0, nil, func(p [][]c24Op) {
+				if len(p[0])+len(p[1])+len(p[2]) > 3 {
+					add(p)
+				}
+			})
+		}
+	}
+	// smallest first, round-robin over the environments
+	var sel []c24Harness
+	for ei := range perEnv {
+		sort.SliceStable(perEnv[ei], func(i, j int) bool { return perEnv[ei][i].ops() < perEnv[ei][j].ops() })
+		c.Bound("harnesses: "+envs[ei].name, len(perEnv[ei]))
+	}
+	for k := 0; ; k++ {
+		any := false
+		for ei := range perEnv {
+			if k < len(perEnv[ei]) {
+				sel = append(sel, perEnv[ei][k])
+				any = true
+			}
+		}
+		if !any {
+			break
 		}
 	}
 	c.Bound("harnesses", len(sel))
 	var totalExec, totalPoints atomic.Int64
 	var maxPoints atomic.Int64
-	deadline := time.Now().Add(time.Duration(c.Pick(75, 1100)) * time.Second)
+	var cut atomic.Int64
+	deadline := time.Now().Add(time.Duration(c.Pick(50, 900)) * time.Second)
 	c.ParDo(len(sel), 0, func(hi int) {
 		h := sel[hi]
 		var names []string
@@ -207,22 +347,48 @@ func runC24(c *fw.Ctx) {
 			}
 			names = append(names, strings.Join(s, ","))
 		}
-		hname := fmt.Sprintf("cap=%d threads=[%s]", h.cap, strings.Join(names, " | "))
+		hname := fmt.Sprintf("%s threads=[%s]", h.family, strings.Join(names, " | "))
+		if h.family == "no pool" || h.family == "pool cap 1" { // names of the first version of this check
+			hname = fmt.Sprintf("cap=%d threads=[%s]", h.cap, strings.Join(names, " | "))
+		}
 		outcomes := map[string]bool{}
 		body := func(x *vsched.Exec) func(*vsched.Exec) string {
 			e := &c24Env{cap: h.cap}
-			if h.cap > 0 {
+			if h.cap >= 0 {
 				e.pool = fdpool.New(h.cap)
 			}
-			e.closeCalled = make([]atomic.Bool, 2)
-			for i := 0; i < 2; i++ {
+			nf := 2
+			if h.third != "" {
+				nf = 3
+			}
+			e.closeCalled = make([]atomic.Bool, nf)
+			var attempts0 atomic.Int32
+			for i := 0; i < nf; i++ {
 				i := i
 				open := func() (bridge.ReadAtCloser, error) {
+					if i == 0 && h.failOpen && attempts0.Add(1) == 1 {
+						e.injected.Add(1)
+						return nil, errC24Injected
+					}
 					e.open.Add(1)
 					e.opens.Add(1)
 					return &c24File{owner: i, env: e}, nil
 				}
 				e.sf = append(e.sf, bridge.NewSharedFileWithPool(open, time.Hour, e.pool))
+			}
+			var thirdFile bridge.ReadAtCloser
+			if h.third != "" {
+				// set-up (not scheduled): the third member is in the pool before the threads start
+				f, err := e.sf[2].Acquire()
+				if err != nil {
+					fw.Abort("C24 set-up: %v", err)
+				}
+				if h.third == "idle" {
+					e.sf[2].Release()
+				} else {
+					thirdFile = f
+					e.prePinned = 1
+				}
 			}
 			for ti, p := range h.progs {
 				x.Go(fmt.Sprintf("t%d", ti), c24Thread(e, p))
@@ -242,7 +408,17 @@ func runC24(c *fw.Ctx) {
 				if e.doubleClose.Load() {
 					return "descriptor closed twice"
 				}
+				if thirdFile != nil {
+					if thirdFile.(*c24File).closed.Load() {
+						return "descriptor of the member pinned by the set-up was closed while held"
+					}
+					e.sf[2].Release()
+					e.prePinned = 0
+				}
 				open := int(e.open.Load())
+				if h.cap == 0 && open != 0 {
+					return fmt.Sprintf("%d idle descriptor(s) still open at quiescence after all timers fired: with fdpool.New(0) (pooling disabled) nothing ever closes an idle descriptor", open)
+				}
 				if h.cap < 0 && open != 0 {
 					return fmt.Sprintf("%d idle un-pooled descriptor(s) still open at quiescence after all timers fired", open)
 				}
@@ -265,7 +441,9 @@ func runC24(c *fw.Ctx) {
 			maxPoints.Store(int64(st.MaxPoints))
 		}
 		if !st.Complete {
-			c.Incomplete("deadline inside " + hname)
+			if cut.Add(1) <= 5 {
+				c.Incomplete("deadline inside " + hname)
+			}
 		}
 		c.Evals(st.Executions)
 		var os []string
@@ -273,20 +451,29 @@ func runC24(c *fw.Ctx) {
 			os = append(os, o)
 		}
 		sort.Strings(os)
-		c.Class(hname + strings.Join(os, ";"))
+		if st.Executions > 0 {
+			c.Class(hname + strings.Join(os, ";"))
+		}
 		if hi%97 == 0 {
 			c.Sample(map[string]any{"harness": hname, "schedules": st.Executions, "outcomes": os})
 		}
 	})
+	if n := cut.Load(); n > 5 {
+		c.Incomplete(fmt.Sprintf("deadline inside or before %d harnesses in all (the largest programs of each environment)", n))
+	}
 	c.States(int(totalExec.Load()))
 	c.Transitions(int(totalPoints.Load()))
 	c.Extra("schedules", totalExec.Load())
 	c.Extra("max_points_per_execution", maxPoints.Load())
+	c.Extra("harnesses_cut_by_deadline", cut.Load())
 	c.TracesValidated(0)
+	c24Store(c)
 }
 
 // hnameKey strips instance numbers so that one defect gives one key.
 func hnameKey(s string) string {
-	r := strings.NewReplacer("sf0", "sf", "sf1", "sf")
-	return r.Replace(s)
+	r := strings.NewReplacer("sf0", "sf", "sf1", "sf", "sf2", "sf")
+	return reC24Count.ReplaceAllString(r.Replace(s), "N ")
 }
+
+var reC24Count = regexp.MustCompile(`^[0-9]+ `)
